@@ -122,7 +122,7 @@ type FuncResult struct {
 
 func (v *Verifier) newExec(name string) *Exec {
 	return &Exec{v: v, ctx: NewCtx(), unitName: name, siteOrd: map[string]map[string]int{}, siteVisits: map[string]int{},
-		expanding: map[*types.Func]bool{}, inlining: map[*types.Func]bool{}, usedSpecFns: map[string]bool{}, trustedUsed: map[string]bool{}, ghostSorts: map[string]string{}}
+		stmtHits: map[int]int{}, expanding: map[*types.Func]bool{}, inlining: map[*types.Func]bool{}, usedSpecFns: map[string]bool{}, trustedUsed: map[string]bool{}, ghostSorts: map[string]string{}}
 }
 
 // useClauses: axioms and lemma instances a function asks for
@@ -241,6 +241,13 @@ func (v *Verifier) verifyFunc(cu *FuncUnit, con *Contract) (res *FuncResult) {
 			panic(r)
 		}
 	}()
+	for _, cl := range con.Clauses {
+		if cl.Kind == "effects_only" {
+			res.Obls = v.effectObligations(cu, con, name)
+			res.Notes = append(res.Notes, "effects_only: body is analysed for call order / callee sets only (no symbolic execution)")
+			return res
+		}
+	}
 	sig := cu.Obj.Type().(*types.Signature)
 	st := &State{vars: map[types.Object]Val{}, heap: map[*types.Var]string{}, ghost: map[string]Val{}}
 	st.alloc = x.ctx.Const("alloc$0", "Int")
@@ -290,6 +297,11 @@ func (v *Verifier) verifyFunc(cu *FuncUnit, con *Contract) (res *FuncResult) {
 	if len(f.gotos) > 0 || len(f.brk) > 0 || len(f.cont) > 0 {
 		x.fail(cu.Decl.Pos(), "dangling goto/break/continue")
 	}
+	for k, cl := range con.Clauses {
+		if (cl.Kind == "before_stmt" || cl.Kind == "after_stmt") && x.stmtHits[k] == 0 {
+			x.fail(cu.Decl.Pos(), "BINDING: %s:%d: no statement starts with the fragment of: %s", cl.File, cl.Line, trunc(cl.Text, 60))
+		}
+	}
 	final := x.mergeAll(rets)
 	if final != nil {
 		x.st = final
@@ -333,6 +345,7 @@ func (v *Verifier) verifyFunc(cu *FuncUnit, con *Contract) (res *FuncResult) {
 			o.Observe = x.inputObs
 		}
 	}
+	x.obls = append(x.obls, v.effectObligations(cu, con, name)...)
 	res.Obls = x.obls
 	res.Notes = x.notes
 	res.Unmodelled = x.unmodelled
